@@ -273,6 +273,9 @@ impl OwnedTerm {
     pub fn as_integer(&self) -> Option<i64> {
         match self {
             OwnedTerm::Integer(i) => Some(*i),
+            // The decoder yields `BigInt` for every integer outside the i32 range,
+            // so an i64 that has been over the wire arrives in this representation.
+            OwnedTerm::BigInt(big) => bigint_to_i64(big),
             _ => None,
         }
     }
@@ -2550,6 +2553,19 @@ fn compare_bigint(a: &BigInt, b: &BigInt) -> Ordering {
             .cmp(&b.digits.len())
             .then_with(|| a.digits.cmp(&b.digits))
             .reverse(),
+    }
+}
+
+fn bigint_to_i64(big: &BigInt) -> Option<i64> {
+    if big.digits.iter().skip(8).any(|&d| d != 0) {
+        return None;
+    }
+    let magnitude = bigint_to_u64(big);
+    if big.sign.is_negative() {
+        // -2^63 is representable, +2^63 is not
+        0i64.checked_sub_unsigned(magnitude)
+    } else {
+        i64::try_from(magnitude).ok()
     }
 }
 
